@@ -8,7 +8,7 @@ from fractions import Fraction as Fr
 
 import numpy as np
 
-from .common import Run, bool_s, frac_s, guarded, list_s, run_driver
+from .common import Run, bool_s, frac_s, guarded, list_s, opt_s, run_driver
 
 META = {
     "claimed": True,
@@ -30,9 +30,21 @@ META = {
     "numpy slice semantics Spec/PySlice (validated each run); pyproj for regions given in another CRS (the model "
     "starts from the re-projected vertices; curved edges between vertices are the recorded finding K3).  IEEE "
     "rounding is not modelled: proofs are over exact rationals, doubles are sampled by the float stream.",
+    "note_growth": "Growth round: model now also mirrors BoundingBox.buffered/span/width/height/shape/from_xy/from_points/"
+    "from_transform (as repaired on HEAD), GeoBox.pad, IEEE specials (nan, +-inf) in bbox_union/bbox_intersection via the "
+    "carrier PyF, and composes with the C02 model (gbox[roi], left/right/top/bottom, flipx/flipy).  NOT mirrored in the "
+    "anchor files: BoundingBox.to_crs/polygon/map_bounds/explore/boundary/qr2sample/aoi/aspect/range_x/range_y/__eq__/__hash__ "
+    "(to_crs, map_bounds, aoi are pyproj; the rest presentation); math.py maybe_int/snap_scale/clamp/align_*/snap_affine/"
+    "snap_grid/_snap_edge*/data_resolution_and_offset/affine_from_axis/quasi_random_r2/edge_index/Bin1D/resolve_* "
+    "(C08/C14/C17/C20 own them; split_float/is_almost_int non-finite branches are oracle-only); geobox.py everything "
+    "outside the set operations (views, zoom, coordinates, GCPGeoBox, GeoBox.project's pyproj part, compute_crop with "
+    "regions, __rmul__, rotate, buffered, footprint, geographic_extent, __dask_tokenize__, svg/html) which belongs to "
+    "C02/C08/C09/C11/C19; geobox_union_conservative/geobox_intersection_conservative with generator (non-list) input.",
     "technique": "Lean 4 proof over hand model + exhaustive/random differential correspondence with real code",
     "design_ref": "DESIGN.md §4 C16",
 }
+
+META["note"] += "  " + META.pop("note_growth")
 
 TAG_EPSG = {"1": 3857, "2": 4326, "3": 32633}
 _CRS_CACHE = {}
@@ -691,6 +703,86 @@ def run(R: Run):
         bbs = [rnd_box(rng.choice([True, True, "huge"]), tg if rng.random() < 0.93 else None) for _ in range(k)]
         R.corr(f"c16 bbu {list_s(bbs, enc_bb)}", real(lambda: enc_bb(bbox_union(iter(bbs)))), sig=None)
         R.corr(f"c16 bbi {list_s(bbs, enc_bb)}", real(lambda: enc_bb(bbox_intersection(iter(bbs)))), sig=None)
+    # IEEE specials and inverted operands in the n-ary forms (model carrier PyF): behaviour as on HEAD
+    SPEC = [math.nan, math.inf, -math.inf, 0.0, 1.0, -2.5, 3.0, 7.5, -1e308, 5e-324]
+
+    def enc_f(v):
+        return "nan" if v != v else "inf" if v == math.inf else "-inf" if v == -math.inf else frac_s(v)
+
+    def enc_bbf(bb):
+        return ";".join(enc_f(float(v)) for v in bb.bbox) + ";" + tag_of(bb.crs)
+
+    nan_order = 0
+    for it in range(R.pick(500, 5000)):
+        k = rng.choice([1, 2, 2, 3, 4])
+        pool = SPEC if it % 3 else SPEC[3:8]
+        bbs = [BoundingBox(*[rng.choice(pool) for _ in range(4)], crs_of("1" if rng.random() < 0.95 else "2")) for _ in range(k)]
+        R.corr(f"c16 bbuf {list_s(bbs, enc_bbf)}", real(lambda: enc_bbf(bbox_union(iter(bbs)))), sig="bbuf")
+        R.corr(f"c16 bbif {list_s(bbs, enc_bbf)}", real(lambda: enc_bbf(bbox_intersection(iter(bbs)))), sig="bbif")
+        if k == 2 and bbs[0].crs == bbs[1].crs and enc_bbf(bbs[0] | bbs[1]) != enc_bbf(bbs[1] | bbs[0]):
+            nan_order += 1
+    R.notes.append(f"observation (theorem bbox_union_nan_order_cex): {nan_order} generated pairs with a nan edge gave "
+                   "a | b != b | a on the real code; nan boxes are outside the property's quantifier")
+    a_, b_ = BoundingBox(math.nan, 0, 1, 1), BoundingBox(0, 0, 2, 2)
+    R.oracle(enc_bbf(a_ | b_) == "0;0;2;2;N" and enc_bbf(b_ | a_) == "nan;0;2;2;N", "model-witness-replay",
+             {"witness": "bbox_union_nan_order_cex"}, f"real code gives {a_ | b_} / {b_ | a_}", trivial=True)
+    # buffered / shape / from_points / from_transform
+    for it in range(R.pick(500, 5000)):
+        bb = rnd_box(True, rng.choice(["N", "1"])) if it % 3 else BoundingBox(*[rng.randint(-800, 800) / 16 for _ in range(4)], None)
+        xb = rng.randint(-24, 40) / 8
+        yb = rng.choice([None, rng.randint(-24, 40) / 8])
+        rb = []
+
+        def fbuf():
+            o = bb.buffered(xb) if yb is None else bb.buffered(xb, yb)
+            rb.append(o)
+            return enc_bb(o)
+
+        R.corr(f"c16 bbbuf {enc_bb(bb)} {frac_s(xb)} {opt_s(yb, frac_s)}", fbuf, sig="bbbuf")
+        if rb:
+            y_ = xb if yb is None else yb
+            want = (Fr(bb.left) - Fr(xb), Fr(bb.bottom) - Fr(y_), Fr(bb.right) + Fr(xb), Fr(bb.top) + Fr(y_))
+            R.oracle(tuple(map(Fr, rb[0].bbox)) == want and rb[0].crs == bb.crs, "bbox-buffered-exact",
+                     {"bb": enc_bb(bb), "xb": xb, "yb": yb}, f"{bb}.buffered({xb},{yb}) = {rb[0]}")
+        rs_ = []
+
+        def fshape():
+            h_, w_ = bb.shape
+            rs_.append((h_, w_))
+            return f"{h_} {w_} {frac_s(bb.span_x)} {frac_s(bb.span_y)}"
+
+        R.corr(f"c16 bbshape {enc_bb(bb)}", fshape, sig="bbshape")
+        if rs_:
+            R.oracle(rs_[0] == (math.trunc(Fr(bb.top) - Fr(bb.bottom)), math.trunc(Fr(bb.right) - Fr(bb.left))),
+                     "bbox-shape-exact", {"bb": enc_bb(bb)}, f"{bb}.shape = {rs_[0]}")
+        p1 = (rng.randint(-40, 40) / 4, rng.randint(-40, 40) / 4)
+        p2 = (rng.randint(-40, 40) / 4, rng.randint(-40, 40) / 4)
+        tg = rng.choice(["N", "1"])
+        rf = []
+
+        def ffp():
+            o = BoundingBox.from_points(p1, p2, crs_of(tg))
+            rf.append(o)
+            return enc_bb(o)
+
+        R.corr(f"c16 bbfrompts {frac_s(p1[0])};{frac_s(p1[1])} {frac_s(p2[0])};{frac_s(p2[1])} {tg}", ffp, sig="bbfrompts")
+        if rf:
+            R.oracle(rf[0].bbox == (min(p1[0], p2[0]), min(p1[1], p2[1]), max(p1[0], p2[0]), max(p1[1], p2[1])),
+                     "bbox-from-points-exact", {"p1": p1, "p2": p2}, f"from_points({p1},{p2}) = {rf[0]}")
+        A = Affine(*rng.choice([(1, 0, 0, 0, 1, 0), (2, 0, 1, 0, -2, 3), (0, -1, 2, 1, 0, 0), (1, -1, 0, 1, 1, 0),
+                                (-0.5, 0, 3, 0, 0.25, -1), (3, -4, 1, 4, 3, 2), (1, 0.5, 0, 0, 1, 0), (-4, 0, 7, 0, 8, 1)]))
+        ny_, nx_ = rng.randint(0, 9), rng.randint(0, 9)
+        rt = []
+
+        def fft():
+            o = BoundingBox.from_transform((ny_, nx_), A, crs_of(tg))
+            rt.append(o)
+            return enc_bb(o)
+
+        R.corr(f"c16 bbfromtr {ny_} {nx_} {enc_aff(A)} {tg}", fft, sig="bbfromtr|" + ("axis" if A.b == 0 and A.d == 0 else "rot"))
+        if rt:   # theorem bbox_from_transform_eq_transform
+            R.oracle(rt[0] == BoundingBox(0, 0, nx_, ny_, crs_of(tg)).transform(A), "bbox-from-transform-footprint",
+                     {"shape": [ny_, nx_], "A": enc_aff(A)}, f"from_transform = {rt[0]}")
     # round / transform
     dy_aff = [(1, 0, 0, 0, 1, 0), (2, 0, 1, 0, -2, 3), (0, -1, 2, 1, 0, 0), (1, -1, 0, 1, 1, 0), (-0.5, 0, 3, 0, 0.25, -1),
               (3, -4, 1, 4, 3, 2), (1, 0.5, 0, 0, 1, 0), (0, 0, 1, 0, 0, 2), (1, 2, 0, 2, 4, 0)]
@@ -964,6 +1056,33 @@ def run(R: Run):
                 oracle(chk_roi(x, y, res[0]), "overlap-roi-not-shared-pixels", case, sig="roi|" + sg)
             else:
                 R.oracle(False, "common-grid-op-raises", case, "overlap_roi of geoboxes on a common grid raised")
+            # composition with gbox[roi] (C02): a[a.overlap_roi(b)] == a & b ;  u = a | b, u[u.overlap_roi(a)] == a
+            if x is a and huge_ok(x, y):
+                rc_, ru_ = [], []
+
+                def fco():
+                    o = x[x.overlap_roi(y)]
+                    rc_.append(o)
+                    return enc_gbox(o)
+
+                def fcu():
+                    u = x | y
+                    o = u[u.overlap_roi(x)]
+                    ru_.append(o)
+                    return enc_gbox(o)
+
+                R.corr(f"c16 cropoverlap {ex_} {ey}", real(fco), sig=f"cropoverlap|{nm}|{sg}")
+                R.corr(f"c16 cropunion {ex_} {ey}", real(fcu), sig=f"cropunion|{nm}|{sg}")
+                case2 = {"op": "crop-link", "a": gb_dict(x), "b": gb_dict(y)}
+                if rc_:
+                    R.oracle(rc_[0] == (x & y), "crop-overlap-not-intersection", case2,
+                             f"a[a.overlap_roi(b)] = {rc_[0]!r} but a & b = {(x & y)!r}", sig="crop-link")
+                if ru_:
+                    R.oracle(ru_[0] == x, "crop-union-not-operand", case2,
+                             f"u = a | b; u[u.overlap_roi(a)] = {ru_[0]!r} but a = {x!r}", sig="crop-link")
+
+    def huge_ok(*gs):   # gbox[roi] goes through roi helpers that are C17's business for huge ints
+        return all(max(int(g_.shape[0]), int(g_.shape[1])) < 2**31 for g_ in gs)
 
     def rel_sig(ra, rb):
         def ax(a0, a1, b0, b1):
@@ -1047,6 +1166,70 @@ def run(R: Run):
                 okA, okN, what = False, False, f"raised {e!r}"
             R.oracle(okA, "not-associative", {"op": op, **case}, what, sig="assoc|" + op)
             R.oracle(okN, "nary-differs-from-binary-fold", {"op": op, **case}, what, sig="nary|" + op)
+    # pad, neighbours, flips (views of C02) composed with the set operations
+    for it in range(R.pick(250, 2500)):
+        nm, B, ex = rng.choice([b_ for b_ in bases if b_[2]])
+        a = member(B, rng.randint(-9, 9), rng.randint(-9, 9), rng.randint(0, 7), rng.randint(0, 7))
+        if a is None or not exact_pair(a, a):
+            stats["inexact-skipped"] += 1
+            continue
+        ea = enc_gbox(a)
+        px, py = rng.randint(-2, 4), rng.choice([None, 0, 1, 3, -1])
+        rp = []
+
+        def fpad():
+            o = a.pad(px) if py is None else a.pad(px, py)
+            rp.append(o)
+            return enc_gbox(o)
+
+        R.corr(f"c16 pad {ea} {px} {opt_s(py)}", real(fpad), sig="pad")
+        if rp:   # two-sided: exactly px columns / py rows added on every side
+            py_ = px if py is None else py
+            want_r = (-px, -py_, int(a.shape[1]) + px, int(a.shape[0]) + py_)
+            R.oracle(rect_of(rp[0], a) == want_r and rp[0].crs == a.crs, "pad-exact",
+                     {"op": "pad", "a": gb_dict(a), "px": px, "py": py},
+                     f"a.pad({px},{py}) covers the pixel rectangle {rect_of(rp[0], a)} of a, expected {want_r}", sig="pad")
+        if rp and px >= 0 and (py is None or py >= 0) and exact_pair(rp[0], a) and exact_pair(a, rp[0]):
+            try:
+                ok = (rp[0] & a) == a and (a | rp[0]) == rp[0]
+                what = f"a.pad({px},{py}) = {rp[0]!r}: (pad & a) == a and (a | pad) == pad fails"
+            except Exception as e:  # pylint: disable=broad-except
+                ok, what = False, f"raised {e!r}"
+            R.oracle(ok, "pad-does-not-contain", {"op": "pad", "a": gb_dict(a), "px": px, "py": py}, what, sig="pad")
+        for which in ("right", "left", "top", "bottom", "flipx", "flipy"):
+            rn = []
+
+            def fn():
+                o = getattr(a, which) if which in ("right", "left", "top", "bottom") else getattr(a, which)()
+                rn.append(o)
+                return enc_gbox(o)
+
+            R.corr(f"c16 nbr {which} {ea}", real(fn), sig="nbr|" + which)
+            if not rn:
+                continue
+            n_ = rn[0]
+            case = {"op": "nbr", "which": which, "a": gb_dict(a)}
+            if which.startswith("flip"):
+                out = guarded(lambda: str(a | n_))
+                sym = (which == "flipx" and a.shape[1] == 0) or (which == "flipy" and a.shape[0] == 0)
+                R.oracle(out == "ERR:ValueError", "incompatible-grid-acceptance", case,
+                         f"a | a.{which}() gave {out[:80]} (a mirrored grid must be refused)", sig="reject|flip")
+            elif exact_pair(n_, a) and exact_pair(a, n_):
+                ny0, nx0 = int(a.shape[0]), int(a.shape[1])
+                want_r = {"right": (nx0, 0, 2 * nx0, ny0), "left": (-nx0, 0, 0, ny0), "bottom": (0, ny0, nx0, 2 * ny0),
+                          "top": (0, -ny0, nx0, 0)}[which]
+                R.oracle(rect_of(n_, a) == want_r, "neighbour-exact", case,
+                         f"a.{which} covers the pixel rectangle {rect_of(n_, a)} of a, expected {want_r}", sig="nbr|" + which)
+                try:
+                    i_, u_ = a & n_, a | n_
+                    ny_, nx_ = int(a.shape[0]), int(a.shape[1])
+                    want = (ny_, 2 * nx_) if which in ("right", "left") else (2 * ny_, nx_)
+                    ok = i_.is_empty() and tuple(u_.shape) == want and chk_union([a, n_], u_)[0]
+                    what = f"a & a.{which} = {i_!r}, a | a.{which} = {u_!r}, expected an empty GeoBox and shape {want}"
+                except Exception as e:  # pylint: disable=broad-except
+                    ok, what = False, f"raised {e!r}"
+                R.oracle(ok, "neighbour-tiles", case, what, sig="nbr|" + which)
+
     # huge shapes / far shifts: Python ints must stay exact (a float detour loses them above 2**53)
     BIG = [2**31 - 1, 2**31 + 1, 2**53 + 3, 2**63, 2**64 + 1, 2**100]
     exact_bases = [b_ for b_ in bases if b_[2]]
